@@ -1,5 +1,5 @@
 """Sidecar contracts, keyed by the qualified name of the real function in /repo."""
-from .types import *
+from .tys import *
 
 REGISTRY = {}
 OPAQUE_TYPES = {}    # tname -> {'methods': {name: dict(args=[types], returns=type, ensures=[exprs])}, 'note': str}
